@@ -115,6 +115,11 @@ def realise(base, v, cont):
     for i, r in enumerate(spec["rank_ids"]):
         if v.get("fmtU", 0) >> i & 1 and i < 2:
             t.setFormat(r, "U")
+    # name and colour are configuration, not content ("names and colors do not need to match")
+    if v["sel"] % 3 == 1:
+        t.setColor(["blue", "green", "red"][(v["sel"] // 3) % 3])
+    if v["sel"] % 4 == 2:
+        t.setName("T%d" % ((v["sel"] // 4) % 3))
     return spec, (t if v["as"] == "tensor" else t.getRoot()), t
 
 
@@ -138,7 +143,8 @@ def check(case, rec):
         o0 = t0 if v0["as"] == "tensor" else t0.getRoot()
     objs.append((spec0, o0, cont0))
     for v in case["variants"][1:]:
-        cont = edit_content(cont0, base["shape"], default, v["edit"], v["sel"], v["val"])
+        # (the variant's own, possibly larger, shape: a pair may differ at a point outside the other's shape)
+        cont = edit_content(cont0, v["shape"], default, v["edit"], v["sel"], v["val"])
         spec, o, _ = realise(base, v, cont)
         objs.append((spec, o, cont))
     if case["independent"]:
